@@ -41,6 +41,25 @@ class Infra(Exception):
     """infrastructure failure -> exit 2"""
 
 
+def raised_by_impl(e):
+    """True when the exception came out of the code under verification (some frame of its traceback is
+    in REPO/modelx): then it is an observation about the implementation (to be reported as a failure
+    with the history that led to it), not a fault of the harness"""
+    root = os.path.join(os.path.realpath(REPO), "modelx") + os.sep
+    t = e.__traceback__
+    while t is not None:
+        if os.path.realpath(t.tb_frame.f_code.co_filename).startswith(root):
+            return True
+        t = t.tb_next
+    return False
+
+
+def impl_error_text(e):
+    """short deterministic text of an exception raised by the implementation (no addresses)"""
+    msg = re.sub(r"0x[0-9a-fA-F]+", "0x..", str(e)).replace("\n", " ")[:160]
+    return "%s: %s" % (type(e).__name__, msg)
+
+
 class Ctx:
     def __init__(self, prop, tier, seed):
         self.prop = prop
@@ -165,6 +184,35 @@ def leanchecker(modules):
 
 
 USED_LAYERS = set()
+# the first driver conversations of this run (layer, input lines, output lines), kept so that the thorough tier can
+# replay them through Lean's interpreter (`lean --run`) and compare with what the natively compiled driver answered
+DRIVER_SAMPLE = []
+DRIVER_SAMPLE_MAX_LINES = 4000
+DRIVER_SAMPLE_MAX_CONV = 40
+
+
+def interpreter_cross_run():
+    """-> (conversations replayed, lines compared, first difference or None).  The theorems are about the kernel's
+    reading of the model definitions; the correspondence runs their COMPILED form (Lean compiler + C toolchain).  This
+    re-runs a sample through the IR interpreter, which shares the front end but not the C back end or the linker."""
+    n_conv = n_lines = 0
+    main = os.path.join(LEAN_DIR, "Driver", "Main.lean")
+    for layer, lines, out in DRIVER_SAMPLE:
+        pr = subprocess.run(["lake", "env", "lean", "--run", main, layer], cwd=LEAN_DIR, timeout=1800,
+                            input="\n".join(lines) + "\n", capture_output=True, text=True)
+        if pr.returncode != 0:
+            raise Infra("interpreter run of the driver failed (layer %s): %s" % (layer, pr.stderr[-1500:]))
+        got = pr.stdout.split("\n")
+        if got and got[-1] == "":
+            got.pop()
+        n_conv += 1
+        n_lines += len(lines)
+        if got != out:
+            k = next((i for i, (a, b) in enumerate(zip(got, out)) if a != b), min(len(got), len(out)))
+            return n_conv, n_lines, {"layer": layer, "line": lines[k] if k < len(lines) else None,
+                                     "compiled": out[k] if k < len(out) else None,
+                                     "interpreted": got[k] if k < len(got) else None}
+    return n_conv, n_lines, None
 
 
 def run_driver(layer, lines, timeout=600):
@@ -181,7 +229,52 @@ def run_driver(layer, lines, timeout=600):
         out.pop()
     if len(out) != len(lines):
         raise Infra("driver returned %d lines for %d ops" % (len(out), len(lines)))
+    if (len(DRIVER_SAMPLE) < DRIVER_SAMPLE_MAX_CONV
+            and sum(len(c[1]) for c in DRIVER_SAMPLE) + len(lines) <= DRIVER_SAMPLE_MAX_LINES):
+        DRIVER_SAMPLE.append((layer, list(lines), list(out)))
     return out
+
+
+class DriverProc:
+    """one long-lived `mxdriver <layer>` process per layer for drivers that flush after every line (struct,
+    relative): a check that asks the model thousands of small questions does not pay a process start for each.
+    Every question starts with `reset`, so questions are independent of each other."""
+    procs = {}
+
+    @classmethod
+    def ask(cls, layer, lines):
+        USED_LAYERS.add(layer)
+        p = cls.procs.get(layer)
+        if p is None or p.poll() is not None:
+            if not os.path.exists(DRIVER):
+                raise Infra("driver not built: " + DRIVER)
+            p = subprocess.Popen([DRIVER, layer], stdin=subprocess.PIPE, stdout=subprocess.PIPE, text=True, bufsize=1)
+            cls.procs[layer] = p
+        out = []
+        for i in range(0, len(lines), 200):       # chunks smaller than the pipe buffers, answers read in between
+            chunk = lines[i:i + 200]
+            p.stdin.write("\n".join(chunk) + "\n")
+            p.stdin.flush()
+            for _ in chunk:
+                line = p.stdout.readline()
+                if not line:
+                    raise Infra("model driver %s died (rc=%s)" % (layer, p.poll()))
+                out.append(line.rstrip("\n"))
+        return out
+
+    @classmethod
+    def close(cls):
+        for p in cls.procs.values():
+            try:
+                p.stdin.close()
+                p.wait(timeout=5)
+            except Exception:
+                p.kill()
+        cls.procs = {}
+
+
+import atexit  # noqa: E402
+atexit.register(DriverProc.close)
 
 
 # --------------------------------------------------------------------------------------
@@ -330,6 +423,12 @@ def _main_check(ctx, pm, replay):
     # 4. correspondence + oracle
     out = Outcome()
     pm.run(ctx, out)
+    if ctx.tier == "thorough" and DRIVER_SAMPLE:
+        n_conv, n_lines, diff = interpreter_cross_run()
+        if diff:
+            raise Infra("the compiled driver and Lean's interpreter disagree on the model: %s" % diff)
+        ctx.notes.append("interpreter cross-run: %d driver conversations (%d lines) replayed through `lean --run`, "
+                         "identical to the compiled driver's answers" % (n_conv, n_lines))
 
     # 5. decide
     violations = 0
